@@ -155,7 +155,7 @@ func Switches(fn *core.FuncRef) []*EnumSwitch {
 // Union describes one tagged-union struct.
 type Union struct {
 	Struct  *types.Named
-	Discr   string            // discriminant field name
+	Discr   string // discriminant field name
 	Enum    *Enum
 	Arm     map[string]string // const name -> payload field ("" = no payload)
 	Payload map[string]bool   // all payload field names
